@@ -24,7 +24,8 @@ structure RelEnv (E : Env) (c : Ctx) where
   fetch_wf : ∀ h t, fetchTxB h = some t → t.WF ∧ OutsFit t
   pend_amt : ∀ ser, OutsFit (P.deserB ser)
   shOf : Bytes → Bytes
-  sh_wf : ∀ a, (shOf a).length = 32 ∧ E.N.sh (shOf a) = E.N.adr a
+  /-- only for addresses of the keystore (for ALL addresses no `shOf` exists: finitely many 32-byte hashes) -/
+  sh_wf : ∀ a x, P.ownA a = some x → (shOf a).length = 32 ∧ E.N.sh (shOf a) = E.N.adr a
   locB : Block → Nat → TxLocB
   loc_sim : ∀ b i, dom b → i < b.txs.length → (locB b i).WF = true ∧ E.loc (locB b i) = (b.id, i)
 
@@ -88,8 +89,8 @@ theorem relOfB_nm (RE : RelEnv E c) (cur : Nat) (o : OutB) (w : Bytes) (ch : Boo
     (relOfB RE cur o w ch).nm E.N = { index := cur, out := o.nm E.N, wallet := E.N.wal w, change := ch } := rfl
 
 theorem relOfB_wf (RE : RelEnv E c) {cur : Nat} (hcur : cur < 256 ^ 4) {o : OutB} (ho : o.amt ≤ maxAmount) {w : Bytes}
-    (hw : w.length = 42) (ch : Bool) : (relOfB RE cur o w ch).WF E.N :=
-  ⟨hw, ho, (RE.sh_wf o.addr).1, hcur, (RE.sh_wf o.addr).2⟩
+    {ch : Bool} (hoa : RE.P.ownA o.addr = some (w, ch)) : (relOfB RE cur o w ch).WF E.N :=
+  ⟨RE.P.ownA_wf _ _ hoa, ho, (RE.sh_wf o.addr _ hoa).1, hcur, (RE.sh_wf o.addr _ hoa).2⟩
 
 -- ------------------------------------------------------------------ filterTx, the TxOut loop
 
@@ -125,7 +126,7 @@ theorem filterOut_on_bytes (RE : RelEnv E c) (ready : List Bytes) {tx : TxB} {lo
           rcases List.mem_append.1 hr with h | h
           · exact hf.relOut r h
           · rw [List.mem_singleton.1 h]
-            exact relOfB_wf RE hcur ho (RE.P.ownA_wf _ _ hoa) ch
+            exact relOfB_wf RE hcur ho hoa
       · simp only [hc, Bool.false_eq_true, if_false]; exact ⟨trivial, hf⟩
 
 -- ------------------------------------------------------------------ the previous transaction of an input
@@ -287,13 +288,13 @@ theorem filterIn_on_bytes (RE : RelEnv E c) {bs : BStore} (hC : CanonS E bs) (mi
               rcases List.mem_append.1 hr with h | h
               · exact hf.relIn r h
               · rw [List.mem_singleton.1 h]
-                exact relOfB_wf RE hcur hamt (RE.P.ownA_wf _ _ hoa) ch
+                exact relOfB_wf RE hcur hamt hoa
           · simp only [hc, Bool.false_eq_true, if_false]; exact ⟨rfl, fun f' e => by cases e; exact hf⟩
 
 -- ------------------------------------------------------------------ filterTx
 
 /-- simulation through a bind -/
-theorem bind_sim {α β α' β' : Type} (x : M α) (y : M α') (k : α → M β) (k' : α' → M β') (ga : α → α') (gb : β → β')
+theorem bind_simQ {α β α' β' : Type} (x : M α) (y : M α') (k : α → M β) (k' : α' → M β') (ga : α → α') (gb : β → β')
     (P : α → Prop) (Qr : β → Prop) (h1 : x.map ga = y) (h1' : ∀ a, x = .ok a → P a)
     (h2 : ∀ a, P a → (k a).map gb = k' (ga a) ∧ ∀ b, k a = .ok b → Qr b) :
     (x >>= k).map gb = (y >>= k') ∧ ∀ b, (x >>= k) = .ok b → Qr b := by
@@ -385,7 +386,7 @@ theorem filterTxRel_on_bytes (RE : RelEnv E c) {bs : BStore} (hC : CanonS E bs) 
   rw [hcb, hins, houts, h0]
   by_cases hc : tx.cb = true
   · simp only [hc, if_true]
-    refine bind_sim _ _ _ _ (FRecB.nm0 E.N) (fun r => r.map (FRecB.nm0 E.N)) (FRecB.Inv E tx loc)
+    refine bind_simQ _ _ _ _ (FRecB.nm0 E.N) (fun r => r.map (FRecB.nm0 E.N)) (FRecB.Inv E tx loc)
       (fun r => ∀ f, r = some f → f.Inv E tx loc) rfl ?_ ?_
     · intro f e; cases e; exact hinv0
     intro f1 hf1
@@ -396,7 +397,7 @@ theorem filterTxRel_on_bytes (RE : RelEnv E c) {bs : BStore} (hC : CanonS E bs) 
       (fun i => i.hash.length = 32) (256 ^ 4)
       (fun b i a hb ha hi => filterIn_on_bytes RE hC mined hin ready hb hi ha)
       tx.ins 0 _ hinv0 (fun i hi => (hw.ins i hi).1) (by simpa using hw.nIns)
-    refine bind_sim _ _ _ _ (FRecB.nm0 E.N) (fun r => r.map (FRecB.nm0 E.N)) (FRecB.Inv E tx loc)
+    refine bind_simQ _ _ _ _ (FRecB.nm0 E.N) (fun r => r.map (FRecB.nm0 E.N)) (FRecB.Inv E tx loc)
       (fun r => ∀ f, r = some f → f.Inv E tx loc) s1 s2 ?_
     intro f1 hf1
     exact filterFinish_on_bytes RE ready hw hfit hf1
